@@ -71,8 +71,8 @@ Spell(xs, d) == Flatten([i \in 1..Len(xs) |-> SpellTok(xs[i], d)])
 
 Cases == [g : {"scan"}, q : 1..Len(Quads), xs : UNION {TokSeqs(n) : n \in 0..N}, line0 : {0, 7}]
          \cup [g : {"scan"}, q : {0}, m : 0..15, xs : UNION {TokSeqs(n) : n \in 0..2}, line0 : {0}]
-         \cup [g : {"render"}, q : 1..Len(Quads), m : {0}, k : 1..8]
-         \cup [g : {"render"}, q : {0}, m : {0, 3, 5, 10, 12, 15}, k : 1..8]
+         \cup [g : {"render"}, q : 1..Len(Quads), m : {0}, k : 1..9]
+         \cup [g : {"render"}, q : {0}, m : {0, 3, 5, 10, 12, 15}, k : 1..9]
 QuadOf(x) == IF x.q = 0 THEN EmptySubsets[x.m] ELSE Quads[x.q]
 
 \* ------------------------------------------------------------ scanner law
@@ -108,6 +108,9 @@ TR == [t |-> "trimR"]
 X == <<120>>
 DefaultsAsText == <<123, 123, 32, 120, 32, 125, 125, 123, 37, 32, 105, 102, 32, 37, 125>>       \* "{{ x }}{% if %}"
 Failing == Ob([t |-> "filter", e |-> Lit(IntV(1)), name |-> "divided_by", args |-> <<Lit(IntV(0))>>])
+IncName == <<105, 46, 108, 105, 113>>
+IncBody == <<T(<<32, 113, 32>>), TL, Ob(Var(X)), TR, T(<<32, 10>>), [t |-> "assign", name |-> <<121>>, e |-> Lit(IntV(2))], Ob(Var(<<121>>))>>
+TopPath == <<116, 46, 108, 105, 113>>
 RProgs(custom) == <<
   <<T(<<97, 32>>), TL, Ob(Var(X)), TR, T(<<32, 98>>)>>,
   <<T(<<97, 10>>), [t |-> "if", branches |-> <<[c |-> Var(X), body |-> <<TR, T(<<32, 121, 32>>), TL>>], [c |-> [t |-> "else"], body |-> <<T(<<110>>)>>]>>], T(<<10, 122>>)>>,
@@ -116,7 +119,9 @@ RProgs(custom) == <<
   <<T(IF custom THEN DefaultsAsText ELSE <<116>>), Ob(Var(X))>>,
   <<T(<<97, 10, 98, 10>>), [t |-> "assign", name |-> <<121>>, e |-> Lit(IntV(2))], T(<<10>>), Failing>>,
   <<[t |-> "capture", name |-> <<99>>, body |-> <<T(<<32, 113, 32>>), TL, Ob(Var(X))>>], Ob(Var(<<99>>))>>,
-  <<T(<<10, 10>>), [t |-> "if", branches |-> <<[c |-> Lit(Bool(TRUE)), body |-> <<T(<<10>>), Failing>>]>>]>>
+  <<T(<<10, 10>>), [t |-> "if", branches |-> <<[c |-> Lit(Bool(TRUE)), body |-> <<T(<<10>>), Failing>>]>>]>>,
+  \* an included file is written with the engine's delimiters as well (its hyphens work, its objects are evaluated)
+  <<T(<<115>>), [t |-> "include", e |-> Lit(Str(IncName))], T(<<101>>)>>
 >>
 REnv == << <<X, Str(<<88>>)>>, <<<<108>>, Arr(<<IntV(1), IntV(2)>>)>> >>
 \* default delimiter strings are ordinary text only when none of the four positions is a default
@@ -125,6 +130,10 @@ AllCustom(x) == x.q # 0 \/ x.m = 0
 Init == c \in Cases
 Next == UNCHANGED vars
 
+\* (the included source sits in the engine's cache for the cases of even quadruple number, on disk for the odd ones)
+IncFields == IF c.g = "render" /\ c.k = 9
+             THEN [path |-> TopPath, usedir |-> TRUE] @@ (IF (c.q + c.m) % 2 = 0 THEN [cache |-> << <<IncName, IncBody>> >>] ELSE [files |-> << <<IncName, IncBody>> >>])
+             ELSE <<>>
 IdOf(x) == IF x.g = "scan" THEN "scan-" \o ToString(x.q) \o "-" \o (IF x.q = 0 THEN ToString(x.m) ELSE "") \o "-" \o ToString(x.line0) \o "-" \o ToString(x.xs)
            ELSE "render-" \o ToString(x.q) \o "-" \o ToString(x.m) \o "-" \o ToString(x.k)
 EmitCase ==
@@ -132,10 +141,10 @@ EmitCase ==
   THEN PrintT(ToJson([id |-> IdOf(c), kind |-> "scan", tm |-> "TraceC05", src |-> Spell(c.xs, EffDelims(QuadOf(c))),
                       delims |-> QuadOf(c), line0 |-> c.line0]))
   ELSE /\ PrintT(ToJson([id |-> IdOf(c), kind |-> "render", tm |-> "TraceRender", prog |-> RProgs(AllCustom(c))[c.k], env |-> REnv,
-                         spell |-> [delims |-> QuadOf(c)], chkline |-> TRUE, line0 |-> 1]))
+                         spell |-> [delims |-> QuadOf(c)], chkline |-> TRUE, line0 |-> 1] @@ IncFields))
        \* the same on an engine that had been given other delimiters before: the last call of Delims is the one that counts,
        \* and a position it leaves empty is the default again
        /\ PrintT(ToJson([id |-> "re" \o IdOf(c), kind |-> "render", tm |-> "TraceRender", prog |-> RProgs(AllCustom(c))[c.k], env |-> REnv,
                          spell |-> [delims |-> QuadOf(c)], chkline |-> TRUE, line0 |-> 1,
-                         predelims |-> << <<60, 60>>, <<62, 62>>, <<60, 37>>, <<37, 62>> >>]))
+                         predelims |-> << <<60, 60>>, <<62, 62>>, <<60, 37>>, <<37, 62>> >>] @@ IncFields))
 =============================================================================
